@@ -626,3 +626,149 @@ Theorem repeat_denotation : forall f a n X,
 Proof. intros. unfold repeat_tree. simpl. reflexivity. Qed.
 
 End Sem.
+
+
+(* ---------------------------------------------------------------- extended mode, the part that holds:
+   on trees without a `#` CharNode (outside classes) and without flag groups that mention x,
+   transpiling under x emits the same text as transpiling the whitespace-stripped tree without x *)
+
+Fixpoint strip_list (l : list re) : list re :=
+  match l with [] => [] | x :: t => if is_ws x then strip_list t else strip_ws x :: strip_list t end.
+Lemma strip_concat : forall l, strip_ws (RConcat l) = RConcat (strip_list l).
+Proof. reflexivity. Qed.
+
+Fixpoint mentions_x_list (l : list re) : bool := match l with [] => false | x :: t => mentions_x x || mentions_x_list t end.
+Fixpoint has_hash_list (l : list re) : bool := match l with [] => false | x :: t => has_hash x || has_hash_list t end.
+
+Definition ext_at (a : re) : Prop :=
+  forall f, fx f = false -> mentions_x a = false -> has_hash a = false ->
+    pr2 (fst (tr (set_x f true) a)) = pr2 (fst (tr f (strip_ws a)))
+    /\ has_err (fst (tr (set_x f true) a)) = has_err (fst (tr f (strip_ws a)))
+    /\ snd (tr (set_x f true) a) = set_x (snd (tr f (strip_ws a))) true
+    /\ fx (snd (tr f (strip_ws a))) = false.
+
+Lemma set_x_apply : forall f b st un, fx st = false -> fx un = false ->
+  apply_flags (set_x f b) st un = set_x (apply_flags f st un) b.
+Proof.
+  intros f b st un H1 H2. unfold apply_flags, set_x. simpl. rewrite H1, H2. simpl.
+  rewrite orb_false_r, andb_true_r. reflexivity.
+Qed.
+
+Lemma is_char_hash : forall x, has_hash x = false -> is_char x 35 = false.
+Proof.
+  intros x H. destruct x as [a| | | | | | | |txt|neg items|l|a1 a2|k b|q alt r]; try reflexivity.
+  destruct a; try reflexivity. exact H.
+Qed.
+
+Lemma tr_atom_top_x : forall f a, (forall c, a <> AChar c) -> tr_atom_top (set_x f true) a = tr_atom_top f a.
+Proof. intros f a H. destruct a; try reflexivity. exfalso. exact (H c eq_refl). Qed.
+
+Lemma tr_class_x : forall f neg items, tr_class (set_x f true) neg items = tr_class f neg items.
+Proof. reflexivity. Qed.
+
+Lemma ws_tr : forall f x, is_ws x = true -> fx f = true -> tr f x = (R2Empty, f).
+Proof.
+  intros f x H Hx. destruct x as [a| | | | | | | |txt|neg items|l|a1 a2|k b|q alt r]; try discriminate.
+  destruct a; try discriminate. simpl in *. rewrite Hx, H. reflexivity.
+Qed.
+
+Lemma concat_ext : forall l, Forall ext_at l -> forall f, fx f = false ->
+  mentions_x_list l = false -> has_hash_list l = false ->
+    pr2_list (fst (tr_list false (set_x f true) l)) = pr2_list (fst (tr_list false f (strip_list l)))
+    /\ has_err_list (fst (tr_list false (set_x f true) l)) = has_err_list (fst (tr_list false f (strip_list l)))
+    /\ snd (tr_list false (set_x f true) l) = set_x (snd (tr_list false f (strip_list l))) true
+    /\ fx (snd (tr_list false f (strip_list l))) = false.
+Proof.
+  intros l H. induction H as [|x t Hx _ IH]; intros f Hf Hm Hh.
+  - simpl. auto.
+  - simpl in Hm, Hh. apply orb_false_iff in Hm. apply orb_false_iff in Hh.
+    destruct Hm as [Hm1 Hm2]. destruct Hh as [Hh1 Hh2].
+    simpl tr_list. cbn [fx set_x]. rewrite (is_char_hash x Hh1).
+    destruct (is_ws x) eqn:Ew.
+    + rewrite (ws_tr (set_x f true) x Ew eq_refl).
+      destruct (IH f Hf Hm2 Hh2) as (A1 & A2 & A3 & A4).
+      destruct (tr_list false (set_x f true) t) as [ys f2] eqn:Et. simpl in *. auto.
+    + destruct (Hx f Hf Hm1 Hh1) as (B1 & B2 & B3 & B4).
+      simpl tr_list. rewrite Hf.
+      destruct (tr (set_x f true) x) as [y f1x] eqn:E1. destruct (tr f (strip_ws x)) as [y' f1] eqn:E2.
+      simpl in B1, B2, B3, B4. subst f1x.
+      destruct (IH f1 B4 Hm2 Hh2) as (A1 & A2 & A3 & A4).
+      destruct (tr_list false (set_x f1 true) t) as [ys f2x] eqn:Et.
+      destruct (tr_list false f1 (strip_list t)) as [ys' f2] eqn:Et'.
+      simpl in *. rewrite B1, B2, A1, A2. auto.
+Qed.
+
+Theorem ext_sound : forall a, ext_at a.
+Proof.
+  induction a as [a| | | | | | | |txt|neg items|l H|a1 a2 IHa1 IHa2|k b H|k|q alt a IHa] using re_ind2;
+    unfold ext_at; intros f Hf Hm Hh.
+  - (* atom *)
+    destruct a as [c| | | | | | |]; try (simpl; rewrite Hf; auto; fail); try (simpl; auto; fail).
+    simpl strip_ws. simpl in Hh. destruct (is_space c) eqn:Es.
+    + simpl. rewrite Es. simpl. auto.
+    + simpl. rewrite Es, Hf. simpl. auto.
+  - simpl. auto.
+  - simpl. auto.
+  - simpl. auto.
+  - simpl. auto.
+  - simpl. auto.
+  - simpl. auto.
+  - simpl. auto.
+  - simpl. auto.
+  - simpl strip_ws. simpl tr. rewrite tr_class_x. simpl. auto.
+  - (* concat *)
+    rewrite strip_concat, !tr_concat.
+    destruct (concat_ext l H f Hf Hm Hh) as (A1 & A2 & A3 & A4).
+    destruct (tr_list false (set_x f true) l) as [out fx1]. destruct (tr_list false f (strip_list l)) as [out' f1].
+    cbn [fst snd] in *. rewrite !pr2_cat, !has_err_cat. auto.
+  - (* union *)
+    simpl in Hm, Hh. apply orb_false_iff in Hm. apply orb_false_iff in Hh.
+    destruct Hm as [Hm1 Hm2]. destruct Hh as [Hh1 Hh2].
+    destruct (IHa1 f Hf Hm1 Hh1) as (B1 & B2 & B3 & B4).
+    simpl strip_ws. simpl tr.
+    destruct (tr (set_x f true) a1) as [x f1x]. destruct (tr f (strip_ws a1)) as [x' f1].
+    simpl in B1, B2, B3, B4. subst f1x.
+    destruct (IHa2 f1 B4 Hm2 Hh2) as (A1 & A2 & A3 & A4).
+    destruct (tr (set_x f1 true) a2) as [y f2x]. destruct (tr f1 (strip_ws a2)) as [y' f2].
+    simpl in *. rewrite B1, B2, A1, A2. auto.
+  - (* group with content *)
+    simpl in Hm, Hh. apply orb_false_iff in Hm. destruct Hm as [Hm0 Hm1].
+    simpl strip_ws. destruct k as [| |name|st un]; simpl tr.
+    1-3: destruct (H f Hf Hm1 Hh) as (B1 & B2 & B3 & B4);
+         destruct (tr (set_x f true) b) as [x f1x]; destruct (tr f (strip_ws b)) as [x' f1];
+         simpl in *; rewrite B1, B2; auto.
+    apply orb_false_iff in Hm0. destruct Hm0 as [Hst Hun].
+    rewrite (set_x_apply f true st un Hst Hun).
+    assert (Hf1 : fx (apply_flags f st un) = false) by (apply fx_apply; assumption).
+    destruct (H _ Hf1 Hm1 Hh) as (B1 & B2 & B3 & B4).
+    destruct (tr (set_x (apply_flags f st un) true) b) as [x f1x]. destruct (tr (apply_flags f st un) (strip_ws b)) as [x' f1].
+    simpl in B1, B2, B3, B4.
+    destruct (any_gflag (vis st) || any_gflag (vis un)); [|destruct (any_flag st || any_flag un)];
+      simpl; rewrite ?B1, ?B2; auto.
+  - (* flag-only group *)
+    simpl in Hm. rewrite orb_false_r in Hm. simpl strip_ws.
+    destruct k as [| |name|st un]; simpl tr; simpl; auto.
+    apply orb_false_iff in Hm. destruct Hm as [Hst Hun].
+    rewrite (set_x_apply f true st un Hst Hun).
+    assert (Hf1 : fx (apply_flags f st un) = false) by (apply fx_apply; assumption).
+    destruct (any_gflag (vis st) || any_gflag (vis un)); simpl; auto.
+  - (* quantifier *)
+    simpl in Hm, Hh. destruct (IHa f Hf Hm Hh) as (B1 & B2 & B3 & B4).
+    simpl strip_ws. simpl tr.
+    destruct (tr (set_x f true) a) as [x f1x]. destruct (tr f (strip_ws a)) as [x' f1].
+    simpl in *. rewrite B1, B2. auto.
+Qed.
+
+Lemma vis_set_x : forall f b, vis (set_x f b) = vis f.
+Proof. reflexivity. Qed.
+
+(* regex.Transpile under x = regex.Transpile of the stripped tree without x *)
+Theorem extended_text : forall f a, fx f = false -> mentions_x a = false -> has_hash a = false ->
+  transpile_text (set_x f true) a = transpile_text f (strip_ws a).
+Proof.
+  intros f a Hf Hm Hh. destruct (ext_sound a f Hf Hm Hh) as (B1 & B2 & _).
+  unfold transpile_text, transpile. rewrite vis_set_x.
+  destruct (any_gflag (vis f)).
+  - rewrite !has_err_cat, !pr2_cat. simpl. rewrite B1, B2. reflexivity.
+  - rewrite B1, B2. reflexivity.
+Qed.
